@@ -28,14 +28,19 @@ class Obl:
         self.func = func
 
 
-def split_goal(g):
-    """one query per conjunct (mixed goals go `unknown`, conjuncts alone are decided)"""
-    g = simplify(g) if z3.is_quantifier(g) is False and False else g
+def split_goal(g, limit=24):
+    """one query per conjunct (mixed goals go `unknown`, conjuncts alone are decided); conjunctions under an
+    implication are split too: p => (a and b) becomes p => a, p => b"""
     if is_and(g):
         out = []
         for c in g.children():
-            out += split_goal(c)
-        return out
+            out += split_goal(c, limit)
+        return out if len(out) <= limit else [g]
+    if z3.is_implies(g):
+        p, q = g.children()
+        parts = split_goal(q, limit)
+        if len(parts) > 1:
+            return [z3.Implies(p, c) for c in parts]
     return [g]
 
 
@@ -107,8 +112,66 @@ def check_guard(hyps, ms):
     return ('sat' if r == sat else 'unsat' if r == unsat else 'unknown', 'z3', time.time() - t0, None)
 
 
+_SYMS = {}
+_SIZE = {}
+BIG = 400       # distinct sub-terms: hypotheses above this are literal tables (e.g. the 100+ punctuation commands)
+
+
+def _ufuns(t):
+    """names of the uninterpreted functions (arity > 0) occurring in a term; cached per term id"""
+    k = t.get_id()
+    r = _SYMS.get(k)
+    if r is not None:
+        return r
+    out, seen, stack = set(), set(), [t]
+    while stack:
+        x = stack.pop()
+        i = x.get_id()
+        if i in seen:
+            continue
+        seen.add(i)
+        if z3.is_quantifier(x):
+            stack.append(x.body())
+            continue
+        if z3.is_app(x):
+            if x.num_args() > 0 and x.decl().kind() == z3.Z3_OP_UNINTERPRETED:
+                out.add(x.decl().name())
+            stack.extend(x.children())
+    _SYMS[k] = frozenset(out)
+    _SIZE[k] = len(seen)
+    return _SYMS[k]
+
+
+def relevant_hyps(hyps, goal):
+    """the hypotheses that mention no uninterpreted function other than those of the goal (a subset of the
+    hypotheses: a proof from it is a proof from all of them)"""
+    S = _ufuns(goal)
+    return [h for h in hyps if _ufuns(h) <= S]
+
+
 def check_one(hyps, goal, z3_ms, cvc5_ms, watch=None):
     t0 = time.time()
+    # first attempt: only the hypotheses in the goal's vocabulary (sound: fewer hypotheses); a short budget, and only
+    # `unsat` is used from it
+    sub = relevant_hyps(hyps, goal)
+    if len(sub) < len(hyps):
+        s0 = Solver()
+        s0.set('timeout', min(2000, z3_ms))
+        for h in sub:
+            s0.add(h)
+        s0.add(Not(goal))
+        if s0.check() == unsat:
+            return 'unsat', 'z3', time.time() - t0, None
+    # second attempt: without the hypotheses that define large literal tables (also a subset)
+    light = [h for h in hyps if (_ufuns(h) is not None) and _SIZE[h.get_id()] <= BIG]
+    if len(light) < len(hyps):
+        s0 = Solver()
+        s0.set('timeout', min(3000, z3_ms))
+        for h in light:
+            s0.add(h)
+        s0.add(Not(goal))
+        if s0.check() == unsat:
+            return 'unsat', 'z3', time.time() - t0, None
     s = Solver()
     s.set('timeout', z3_ms)
     for h in hyps:
